@@ -260,6 +260,12 @@ func c05Case(c *Ctx) {
 		fcfg.MaxChunks = 9 + c.Plan.Draw(4)
 	}
 	flags := append(baseFlags(c.Plan), "--vdrmode="+vdr)
+	if c.Plan.Draw(6) == 0 {
+		// metadata archived at the end; an interruption around the archiving leaves
+		// the restarted mrp to unpack it (or to find it half-written)
+		flags = append(flags, "--zip")
+		c.Res.Probes["bases-with-zip"]++
+	}
 	// some bases run in cluster mode: the jobs are not children of mrp, survive its
 	// death and keep running (and finishing) while it is down and after its restart
 	clusterMode := c.Plan.Draw(6) == 0 || os.Getenv("VERIF_C05_CLUSTER") != ""
